@@ -354,3 +354,47 @@ pub fn h_c10_dot(inp: &Inp) -> u8 {
         1
     }
 }
+
+//@ harness props=C07 bounds=thorough:big covers=3 name=ReadCtx derivations on arbitrary contexts (rm_clock <= add_clock, as every read hands out): derive_add_ctx(a) carries a's next unused dot and a clock that covers everything the reader saw plus that dot; derive_rm_ctx is exactly the remove context; split keeps both clocks
+#[no_mangle]
+pub fn h_c07_ctx_derive(inp: &Inp) -> u8 {
+    use crate::ctx::ReadCtx;
+    let mut i = In::new(inp);
+    let add = any_vclock(&mut i);
+    let rm = any_vclock(&mut i);
+    let a = i.below(NA);
+    i.assume(leq(&rm, &add));
+    if !i.ok {
+        return 2;
+    }
+    let mk = || ReadCtx { add_clock: add.clone(), rm_clock: rm.clone(), val: 7u8 };
+    let actx = mk().derive_add_ctx(a);
+    if actx.dot.actor != a || actx.dot.counter != vget(&add, a) + 1 {
+        return 0;
+    }
+    if !vc_is(&actx.clock, |x| if x == a { vget(&add, x) + 1 } else { vget(&add, x) }) {
+        return 0;
+    }
+    // fresh: the reader had not seen the dot, and the derived clock covers the whole add context
+    if add.get(&a) >= actx.dot.counter || !leq(&add, &actx.clock) {
+        return 0;
+    }
+    let rctx = mk().derive_rm_ctx();
+    if !vc_is(&rctx.clock, |x| vget(&rm, x)) {
+        return 0;
+    }
+    let (v, rest) = mk().split();
+    if v != 7 || !vc_is(&rest.add_clock, |x| vget(&add, x)) || !vc_is(&rest.rm_clock, |x| vget(&rm, x)) {
+        return 0;
+    }
+    // a context derived from the split remainder is the same
+    let actx2 = rest.derive_add_ctx(a);
+    if actx2.dot != actx.dot || actx2.clock != actx.clock {
+        return 0;
+    }
+    if rm != add {
+        3 // per-element read: the remove context is strictly smaller than the add context
+    } else {
+        1
+    }
+}
